@@ -39,7 +39,8 @@ HEAVY_HINT = ["higher_order_impl", "collection_impl", "arithmetic_impl", "conver
 
 
 def bdir(variant: str) -> Path:
-    return VERIF / ".build" / variant
+    # VERIF_BUILD_DIR lets a snapshot of /verif (vp run) share the object cache of the main checkout
+    return Path(os.environ.get("VERIF_BUILD_DIR", str(VERIF / ".build"))) / variant
 
 
 def shim_dir() -> Path:
